@@ -14,6 +14,7 @@
   involves the adjustment (same coordinates, no further iterations, n = 1, 2, 3 rounds).
 -/
 import Gama.Lemmas.Export
+import Gama.Lemmas.ExportExamples
 namespace Gama.Props.C13
 open Gama Gama.Export Gama.Gen.GkfAttrs
 
@@ -49,6 +50,14 @@ theorem C13_roundtrip_dh (F : NumFmt K) (hF : F.Lawful) (sd : K → K) (pos : K 
 theorem C13_roundtrip_cov (F : NumFmt K) (hF : F.Lawful) (c : Cov K) : parseCov F (exportCov F c) = some c :=
   parse_export_cov F hF c
 
+/-- `<cov-mat>` of `<coordinates>` / `<vectors>` with inconsistent axes/angles: the export negates the covariances
+    between mirrored (y, dy) and not mirrored components, the parser followed by `remove_inconsistency()` negates the
+    same entries again: the internal matrix comes back (all dim, band, mirror patterns) -/
+theorem C13_roundtrip_cov_y_sign (F : NumFmt K) (hF : F.Lawful) (neg : K → K) (hneg : ∀ x, neg (neg x) = x)
+    (ysign : Bool) (mir : Nat → Bool) (c : Cov K) :
+    parseCovY F neg ysign mir (exportCovY F neg ysign mir c) = some c :=
+  parse_export_covY F hF neg hneg ysign mir c
+
 /-- F8 (pinned commit): with `fs_dh ↦ dropped` in process_angle the target height of the second target is lost.
     Stated on the route table as text so that it stays checkable after the repair: the regenerated table
     must route `fs_dh` to `set_fs_dh` -/
@@ -63,8 +72,6 @@ theorem C13_F21_witness (F : NumFmt K) (hF : F.Lawful) (x : K) :
   parse_export_obs_noext_witness F hF x
 
 /-! ## non-vacuity: numbers = their decimal text (fmt = id), which satisfies the hypothesis -/
-
-def strFmt : NumFmt String := ⟨id, some, "0", (· == "0")⟩
 
 example : strFmt.Lawful := ⟨fun _ => rfl, fun x => by simp [strFmt]⟩
 
@@ -88,5 +95,9 @@ example : (exportDh strFmt true (· != "0") ⟨"A", "B", "1.25", "0.7", "8.4", "
     [(.from_, "A"), (.to, "B"), (.val, "1.25"), (.dist, "0.7")] := by decide
 example : (exportDh strFmt true (· != "0") ⟨"A", "B", "1.25", "0", "3", "x"⟩).2 =
     [(.from_, "A"), (.to, "B"), (.val, "1.25"), (.stdev, "3"), (.extern, "x")] := by decide
+-- x, y, z of one point (y mirrored), full matrix: cov(x,y) and cov(y,z) change sign, cov(x,z) and the diagonal do not
+example : entrySigns 3 2 (fun i => i == 2) = [false, true, false, false, true, false] := by decide
+example : (exportCovY strFmt (fun s => "-" ++ s) true (fun i => i == 2) ⟨3, 2, ["a", "b", "c", "d", "e", "f"]⟩).2.2 =
+    ["a", "-b", "c", "d", "-e", "f"] := by decide
 
 end Gama.Props.C13
